@@ -9,7 +9,9 @@ package ref
 // defines it - labels of letters and digits with inner hyphens, separated by single dots, an
 // optional trailing dot, an optional :port of digits, and at least one dot or a port - decided
 // here by a hand-written recogniser, not by a regular expression; and the printed form parses back
-// to the same components.
+// to the same components. In addition the tag-length bound of the grammar (128 characters) is
+// exercised at 1, 127, 128, 129, 130, 200, 256 and 1000 characters for five reference forms, with and
+// without a digest (the enumeration above cannot reach it).
 
 import (
 	"fmt"
@@ -95,6 +97,24 @@ func TestVerifBoundedRefGrammar(t *testing.T) {
 			}
 		}
 		cur = next
+	}
+	// the one counted repetition of the grammar: a tag has at most 128 characters, in every form
+	// a reference can take (registry form and OCI layout form, with and without a digest)
+	dig := "@sha256:" + strings.Repeat("a", 64)
+	for _, prefix := range []string{"example.com/repo:", "repo:", "localhost:5000/a/b:", "ocidir://path/to/layout:", "ocidir://x:"} {
+		for _, suffix := range []string{"", dig} {
+			for _, l := range []int{1, 127, 128, 129, 130, 200, 256, 1000} {
+				tag := strings.Repeat("x", l)
+				r, err := New(prefix + tag + suffix)
+				n++
+				if l <= 128 && (err != nil || r.Tag != tag) {
+					t.Fatalf("New(%s<%d x>%s): a tag of %d characters is within the grammar, got tag %q, err %v", prefix, l, suffix, l, r.Tag, err)
+				}
+				if l > 128 && err == nil {
+					t.Fatalf("New(%s<%d x>%s) accepted a tag of %d characters (the grammar allows 128)", prefix, l, suffix, l)
+				}
+			}
+		}
 	}
 	fmt.Printf("BOUNDED instances=%d\n", n)
 }
